@@ -194,7 +194,7 @@ def find_closures(outs):
     written (in the analysed function or in a private helper the engine inlined)"""
     res = {}
     for o in outs:
-        names = [e[2][1][2] for e in o.events if e[0] == 'call' and e[1].endswith('Iterator>::find') and len(e[2]) > 1
+        names = [e[2][1][2] for e in o.events if e[0] == 'call' and (e[1].endswith('::find') and 'Iterator' in e[1]) and len(e[2]) > 1
                  and e[2][1][0] == 'agg' and e[2][1][1] == 'closure']
         for e in o.events:
             if e[0] == 'closure' and e[1] in names:
